@@ -162,6 +162,30 @@ def hv(binary, args, timeout=900):
     return json.loads(last[-1]) if last else {}
 
 
+def hv_hangsafe(binary, args, runs, timeout=1800):
+    """tcb-drive: a call into the Tcb that never returns makes the driver's watchdog record the run (a `panic`
+    event saying "hang") and exit with status 3; the driver is restarted behind that run."""
+    start, totals = 0, {"events": 0, "panics": 0, "cover": 0, "hangs": 0}
+    while True:
+        rc, out = sh([binary] + args + ["--runs", str(runs), "--from", str(start)], cwd=ROOT, timeout=timeout)
+        last = [l for l in out.splitlines() if l.startswith("{")]
+        st = json.loads(last[-1]) if last else {}
+        if rc == 0:
+            for k in ("events", "panics"):
+                totals[k] += st.get(k, 0)
+            totals["cover"] = max(totals["cover"], st.get("cover", 0))
+            totals["runs"] = runs
+            return totals
+        if rc == 3 and "hang_run" in st and st["hang_run"] >= start and totals["hangs"] <= runs:
+            totals["hangs"] += 1
+            start = st["hang_run"] + 1
+            if start >= runs:
+                totals["runs"] = runs
+                return totals
+            continue
+        raise ToolError("harness %s failed (%d):\n%s" % (" ".join(args[:2]), rc, out[-3000:]))
+
+
 def hv_resumable(binary, args, runs, timeout=900):
     """Full-stack drivers die with the process when the code under test panics (run_internet installs a hook
     that exits): the panic is recorded in the trace, and the driver is restarted after the crashed run."""
